@@ -348,6 +348,9 @@ Proof.
   - (* Attribute *) destruct cs as [|c0 [|c1 cs]]; try discriminate Har. rewrite wrap_children_cons. cbn [layout wrap_children concat]. rewrite app_nil_r.
     apply (FC c0 [] eq_refl eq_refl).
   - (* Joined *) destruct lits as [|l0 ls]; [discriminate Har|]. cbn. eexists. eexists. split; reflexivity.
+  - discriminate Har.
+  - discriminate Har.
+  - discriminate Har.
 Qed.
 
 
@@ -1472,6 +1475,9 @@ Proof.
   - apply case_slice; exact IH.
   - apply case_joined; exact IH.
   - apply case_formatted; exact IH.
+  - intros Hg. destruct (good_node _ _ Hg) as [Har _]. discriminate Har.
+  - intros Hg. destruct (good_node _ _ Hg) as [Har _]. discriminate Har.
+  - intros Hg. destruct (good_node _ _ Hg) as [Har _]. discriminate Har.
 Qed.
 
 (* a whole expression: parsing the printed tokens gives the tree back and consumes everything *)
